@@ -2,6 +2,7 @@ import MoqModel.GlueFacts
 import MoqModel.Generated.Glue
 import MoqModel.Gen
 import MoqModel.ResolveShallow
+import MoqModel.ResolveTerm
 /-
   C19 — every invocation terminates with output or a diagnostic.
 
@@ -116,5 +117,43 @@ theorem c19_addImport_returns_shallow (k fuel : Nat) (r : Registry) (p : PkgRef)
   · cases hnew : r.lookup (stripVendorPath p.path) with
     | some q => simp [addImport, hdst, hnew]
     | none => rw [addImport_shallow k fuel r p c hdst hnew hc heq hd hfa hfb]; rfl
+
+end Moq
+
+namespace Moq
+
+/-- **`resolveImportConflict` returns**: for every state of separated packages (`Sep`: clauses A, X,
+    Q, D of WF.imports – distinct sanitised paths, candidates of different packages at different
+    levels differ, no level-≥1 candidate is another package's initial qualifier, candidates not
+    empty), every map-iteration order and conflicts cascading to any depth, a call at level `lvl`
+    returns with `k + 1` units of fuel as soon as `lvl + k` is above the longest path.  Not
+    `_partial`: this is the termination half that was open; what stays outside is exactly F-01
+    (`c19_f01_diverges_witness`: paths that sanitise equally). -/
+theorem c19_resolver_terminates {V : List Str} {q0 : Str → Str} {D : Nat} (hs : sepB V q0 D = true) (o : Ord) (ho : o.sound)
+    (k lvl : Nat) (s : RS) (a b : Str) (hD : D ≤ lvl + k) (h1 : 1 ≤ lvl + k) (hsh : ShapeV V q0 s)
+    (ha : a ∈ s.paths) (hb : b ∈ s.paths) (hab : a ≠ b) :
+    ∃ s', resolve o (k + 1) s a b lvl = some s' :=
+  resolve_terminates (sepB_sound V q0 D hs) o ho k lvl s a b hD h1 hsh ha hb hab
+
+/-- **`AddImport` returns**, with at most `D + 2` nested calls, and hands back a registry of the
+    same kind: the statement chains along every sequence of `AddImport` calls of a run (its only
+    callers are `populateImports` and `Mocker.Mock`) -/
+theorem c19_addImport_terminates {V : List Str} {q0 : Str → Str} {D : Nat} (hs : sepB V q0 D = true) (o : Ord) (ho : o.sound)
+    (r : Registry) (p : PkgRef) (hr : RegShape V q0 r)
+    (hpV : stripVendorPath p.path ∈ V)
+    (hq0 : q0 (stripVendorPath p.path) =
+             Pkg.qualifier ⟨stripVendorPath p.path, p.name, aliasOf r.aliases (stripVendorPath p.path)⟩) :
+    ∃ r' res, addImport o (D + 2) r p = some (r', res) ∧ RegShape V q0 r' :=
+  addImport_terminates (sepB_sound V q0 D hs) o ho r p hr hpV hq0
+
+/-- non-vacuity: three packages named foo at different depths and the standard sync are separated -/
+example : sepB [s%"m/lib/foo", s%"m/x/foo", s%"m/a/b/foo", s%"sync"]
+    (fun p => if p = s%"sync" then s%"sync" else s%"foo") 3 = true := by decide +kernel
+
+/-- outside `Sep` (clause A): `x/foo` and `x/go-foo` have the same unique name at every level –
+    the resolver only climbs; no amount of fuel makes it return (finding F-01; here: 40 units) -/
+theorem c19_f01_diverges_witness :
+    resolve Ord.id 40 ⟨⟨s%"m/x/go-foo", s%"foo", []⟩, [⟨s%"m/x/foo", s%"foo", []⟩]⟩ s%"m/x/go-foo" s%"m/x/foo" 0 = none := by
+  decide +kernel
 
 end Moq
